@@ -318,7 +318,12 @@ inline rc::Gen<uint64_t> genU64() {
 			0xffffffffffffffffULL, 0xfffffffffffffff8ULL, 0x7fffffffULL, 0x80000000ULL, 0xffffffffULL, 0x100000000ULL, 0xffffffff80000000ULL,
 			16376, 16384, 262136, 262144, 2097144, 2097152, 2097088),
 		gen::map(gen::arbitrary<uint32_t>(), [](uint32_t x) { return (uint64_t)x; }),
-		gen::map(gen::arbitrary<int32_t>(), [](int32_t x) { return (uint64_t)(int64_t)x; })));
+		gen::map(gen::arbitrary<int32_t>(), [](int32_t x) { return (uint64_t)(int64_t)x; }),
+		// boundary grid over the two 32-bit halves (carry cases of 32x32 decompositions, half-word sign cases)
+		gen::map(gen::tuple(gen::inRange(0, 12), gen::inRange(0, 12), gen::arbitrary<uint32_t>()), [](std::tuple<int, int, uint32_t> t) {
+			static const uint32_t h[11] = {0, 1, 2, 3, 0x7fffffffu, 0x80000000u, 0x80000001u, 0xfffffffdu, 0xfffffffeu, 0xffffffffu, 0x0000ffffu};
+			uint32_t hi = std::get<0>(t) < 11 ? h[std::get<0>(t)] : std::get<2>(t), lo = std::get<1>(t) < 11 ? h[std::get<1>(t)] : (std::get<2>(t) * 2654435761u);
+			return ((uint64_t)hi << 32) | lo; })));
 }
 inline rc::Gen<uint32_t> genU32() {
 	using namespace rc;
